@@ -5,6 +5,7 @@ go 1.20
 require (
 	github.com/cactus/go-statsd-client/v5 v5.0.0
 	github.com/prometheus/client_golang v1.11.0
+	github.com/twmb/murmur3 v1.1.8
 	github.com/uber-go/tally/v4 v4.0.0
 )
 
@@ -18,7 +19,6 @@ require (
 	github.com/prometheus/client_model v0.2.0 // indirect
 	github.com/prometheus/common v0.26.0 // indirect
 	github.com/prometheus/procfs v0.6.0 // indirect
-	github.com/twmb/murmur3 v1.1.8 // indirect
 	go.uber.org/atomic v1.11.0 // indirect
 	golang.org/x/sys v0.0.0-20210603081109-ebe580a85c40 // indirect
 	google.golang.org/protobuf v1.26.0-rc.1 // indirect
